@@ -548,7 +548,7 @@ Proof. intros H fuel d ps pinit g. apply (fsim_observe 0). apply eval_local. exa
 Lemma nth_byte_sub mem o l i : 0 <= o -> o <= i < o + l ->
   nth_byte mem i = nth_byte (firstn (Z.to_nat l) (skipn (Z.to_nat o) mem)) (i + - o).
 Proof.
-  intros Ho Hi. unfold nth_byte.
+  intros Ho Hi. rewrite !nth_byte_nth.
   rewrite nth_firstn' by lia. rewrite nth_skipn'. f_equal. lia.
 Qed.
 
@@ -896,7 +896,7 @@ Lemma memmove_window mem o1 o2 n :
   forall i, o2 <= i < o2 + n ->
     nth_byte mem i = nth_byte (memmove mem (Z.to_nat o1) (Z.to_nat o2) (Z.to_nat n)) (i + (o1 - o2)).
 Proof.
-  intros H1 H2 L1 L2 i Hi. unfold nth_byte.
+  intros H1 H2 L1 L2 i Hi. rewrite !nth_byte_nth.
   replace (Z.to_nat (i + (o1 - o2))) with (Z.to_nat o1 + Z.to_nat (i - o2))%nat by lia.
   rewrite memmove_copied by lia. f_equal. lia.
 Qed.
@@ -909,7 +909,7 @@ Lemma memmove_keeps_source mem o1 o2 l2 n :
   forall i, o2 <= i < o2 + l2 ->
     nth_byte mem i = nth_byte (memmove mem (Z.to_nat o1) (Z.to_nat o2) (Z.to_nat n)) i.
 Proof.
-  intros H1 H2 Hn L1 L2 Hov i Hi. unfold nth_byte.
+  intros H1 H2 Hn L1 L2 Hov i Hi. rewrite !nth_byte_nth.
   destruct (Z_lt_ge_dec i o1) as [Hlt|Hge]; [symmetry; apply memmove_frame; lia|].
   destruct (Z_lt_ge_dec i (o1 + n)) as [Hin|Hout]; [|symmetry; apply memmove_frame; lia].
   assert (o1 = o2) by lia. subst o2.
